@@ -400,6 +400,8 @@ pub fn guard_holds(prop: &str, guard: &str, case: &Case, fail: &Fail, rejudge: &
                 f.kind == fail.kind && !guard_holds(prop, "empty_string_dropped_by_recreate_graph", &reduced, f, rejudge)
             })
         }
+        // D15: a surrogate pair is two code points for Python's re, so it never matches the astral character
+        "python_surrogates_are_two_code_points" => crate::custom::d15_guard(case, fail),
         _ => false,
     }
 }
